@@ -20,11 +20,13 @@ LEVEL = "other"
 TOL = 1e-4
 
 
-def make_case(rng):
+def make_case(rng, special=None):
     from pde import CartesianGrid, CylindricalSymGrid, PolarSymGrid, SphericalSymGrid
     from droplets.droplets import DiffuseDroplet
 
     kind = rng.choice(["c1", "c2", "c2", "c3", "polar", "spherical", "cyl", "cylp"])
+    if special is not None:
+        kind = "c2" if rng.random() < 0.8 else "c3"
     if kind in ("c1", "c2", "c3"):
         dim = int(kind[1])
         h0 = rng.choice([1.0, 0.5, 0.39])
@@ -32,6 +34,14 @@ def make_case(rng):
         n = {1: [rng.randint(40, 90)], 2: [rng.randint(24, 44), rng.randint(24, 44)], 3: [rng.randint(16, 22) for _ in range(3)]}[dim]
         lo = [rng.choice([0.0, -7.5, 3.0]) for _ in range(dim)]
         per = [rng.random() < 0.6 for _ in range(dim)]
+        if special == "corner":
+            # fully periodic grid with unequal cell counts; the droplet sits around a corner of the box
+            per = [True] * dim
+            while len(set(n)) < dim:
+                n = [rng.randint(24, 44) for _ in range(dim)] if dim == 2 else [rng.randint(16, 22) for _ in range(3)]
+        elif special == "mixed":
+            # a non-periodic axis FOLLOWED by a periodic one; the droplet crosses the boundary of the later periodic axis
+            per = [False] * (dim - 1) + [True] if rng.random() < 0.7 else [True] + [False] * (dim - 2) + [True]
         grid = CartesianGrid([[a, a + m * d] for a, m, d in zip(lo, n, h)], n, periodic=per)
         hmax = max(h)
         drops = []
@@ -47,7 +57,13 @@ def make_case(rng):
                 if grid.periodic[a]:
                     if 2 * R + 12 * w >= L:
                         ok = False
-                    c.append(rng.uniform(lo[a], lo[a] + L))
+                    if special is not None and not drops:
+                        # around the boundary (inside or outside the box), the boundary point itself not necessarily covered
+                        c.append(rng.choice([lo[a], lo[a] + L]) + rng.choice([-1, 1]) * rng.uniform(0.3, 0.98) * R)
+                    elif rng.random() < 0.35:
+                        c.append(rng.choice([lo[a], lo[a] + L]) + rng.uniform(-1, 1) * R)
+                    else:
+                        c.append(rng.uniform(lo[a], lo[a] + L))
                 else:
                     if 2 * (R + 5 * w) >= L:
                         ok = False
@@ -86,10 +102,13 @@ def run_cases(ck: Check, n: int):
 
     rng = ck.rng
     worst = {"position": 0.0, "radius": 0.0, "width": 0.0}
-    for _ in range(n):
-        grid, drops = make_case(rng)
+    for i in range(n):
+        special = {0: "corner", 1: "mixed"}.get(i % 5)
+        grid, drops = make_case(rng, special)
         if not drops:
             continue
+        if special:
+            ck.count(f"special.{special}")
         base = Emulsion(drops).get_phasefield(grid).data
         a, b = rng.choice([(1.0, 0.0), (1.0, 0.0), (2.5, -1.0), (0.3, 4.0)])
         field = ScalarField(grid, a * base + b)
